@@ -2830,6 +2830,11 @@ def groupby_reduce(
 
         method = _choose_method(method, preferred_method, agg, by_, nax)
 
+        if method == "cohorts" and not chunks_cohorts:
+            # None of the expected groups is present in `by`, so there are no cohorts.
+            # "map-reduce" handles this fine: every group receives the fill_value.
+            method = "map-reduce"
+
         if agg.chunk[0] is None and method != "blockwise":
             raise NotImplementedError(
                 f"Aggregation {agg.name!r} is only implemented for dask arrays when method='blockwise'."
